@@ -11,7 +11,8 @@ ID = "C04"
 TITLE = "damaged stream -> intact prefix"
 LEVEL = "fault_enumeration"
 RULE = (
-    "for every generated stream (3-10 records over 1-3 descriptors incl. nested and grouped records, 300-8000 bytes) the "
+    "for every generated stream (3-10 records over 1-3 descriptors incl. nested and grouped records, 300-8000 bytes; every fourth one "
+    "is a file that 1-3 later writers appended to, so it holds mid-stream header frames and repeated descriptor frames) the "
     "fault space is enumerated completely: (cut) EVERY byte offset 0..len of the raw stream read through a buffered "
     "BytesIO, a raw non-peekable reader returning short reads, and RecordReader(fileobj=); (gzcut) EVERY byte offset of "
     "the sync-flushed gzip form (built by the harness) and of the gzip file the library itself writes when flushed after every record, read through RecordReader(fileobj=); (wfault) EVERY write-call index of the writer's file "
@@ -66,20 +67,66 @@ def build(case, ctx):
     from flow.record import RecordStreamWriter
 
     n = 3 + case["s"] % 8
+    del _PARTS[:]
     if case.get("i", 0) % 4 == 2:
         records = same_name_family(case["s"], n + 2)
     elif case.get("i", 0) % 4 == 1:
         records = embedded_stream_family(case["s"], min(n, 5))
+    elif case.get("i", 0) % 4 == 3:
+        # a file that was appended to by later writers (or parts joined with cat): every part starts with its own header
+        # frame and announces its descriptors again; the parts share record types
+        import random
+
+        rng = random.Random(case["s"])
+        n = max(n, 4)
+        records = workload.build_sequence(case["s"], thorough=False, n_records=n, n_descs=1 + case["s"] % 2, small=True)
+        _PARTS.extend(sorted(rng.sample(range(1, n), rng.choice([1, 2, 2, 3]))))
     else:
         records = workload.build_sequence(case["s"], thorough=False, n_records=n, n_descs=1 + case["s"] % 3, small=True)
     written = [observe.normalise(observe.obs(r)) for r in records]
     tee = faultio.TeeFile()
-    w = RecordStreamWriter(tee)
-    for r in records:
-        w.write(r)
-    w.flush()
-    w.fp = None
+    write_records(tee, records, carry_on=False)
     return records, written, tee.getvalue(), tee
+
+
+_PARTS = []  # record indexes at which the application of the current stream starts a new writer on the same file
+
+
+def write_records(fileobj, records, carry_on):
+    """Write the records the way the current stream's application does (one writer, or a new writer appending to the same
+    file at every index in _PARTS).  -> (ok flag per attempted record, first exception or None).  Without carry_on the
+    application stops at the first exception (crash)."""
+    from flow.record import RecordStreamWriter
+
+    ok, crashed, w = [], None, None
+    for j, r in enumerate(records):
+        if w is None or j in _PARTS:
+            if w is not None:
+                try:
+                    w.flush()
+                except Exception as e:  # noqa: BLE001
+                    if not carry_on:
+                        crashed = e
+                        break
+                w.fp = None
+            w = RecordStreamWriter(fileobj)
+        try:
+            w.write(r)
+            ok.append(True)
+        except Exception as e:  # noqa: BLE001 - the injected fault (or its consequence) reaches the application
+            ok.append(False)
+            if not carry_on:
+                crashed = e
+                break
+    if w is not None:
+        if crashed is None:
+            try:
+                w.flush()
+            except Exception as e:  # noqa: BLE001
+                if not carry_on:
+                    crashed = e
+        w.fp = None
+    return ok, crashed
 
 
 def same_name_family(seed, n):
@@ -210,6 +257,9 @@ def execute(ctx, case):
         ctx.note_add("streams_not_reference_decodable")
     frame_ends = [e for _, e, _ in frames]
     k, sub = case["k"], case["sub"]
+    if _PARTS:
+        ctx.event("streams_appended_to_by_a_later_writer")
+        ctx.event("mid_stream_header_frames", len(_PARTS))
     ctx.sample({"case": case, "stream_bytes": len(data), "frames": len(frames), "records": len(records), "first": workload.describe(records, 1)}, kind=k + ":" + sub)
 
     def expected_for(n_bytes):
@@ -268,16 +318,7 @@ def execute(ctx, case):
 
     for idx in range(ncalls):
         ff = faultio.FaultFile(idx, sub)
-        w = RecordStreamWriter(ff)
-        crashed = None
-        try:
-            for r in records:
-                w.write(r)
-            w.flush()
-        except Exception as e:  # noqa: BLE001 - the injected fault (or its consequence) reaches the application: it stops
-            crashed = e
-        finally:
-            w.fp = None
+        _, crashed = write_records(ff, records, carry_on=False)
         ondisk = ff.getvalue()
         ctx.ev()
         ctx.event("wfault:" + sub)
@@ -372,19 +413,7 @@ def run_continue_after_fault(ctx, case, records, written, data, tee, frames):
     for idx, fmode in plan:  # the header frame is written by the first write; failing it is the crash case
         misframed = idx in body_calls
         ff = faultio.FaultFile(idx, fmode)
-        w = RecordStreamWriter(ff)
-        ok = []
-        for r in records:
-            try:
-                w.write(r)
-                ok.append(True)
-            except Exception:  # noqa: BLE001 - the application notes the failure and carries on
-                ok.append(False)
-        try:
-            w.flush()
-        except Exception:  # noqa: BLE001
-            pass
-        w.fp = None
+        ok, _ = write_records(ff, records, carry_on=True)  # the application notes each failure and carries on
         ctx.ev()
         ctx.event("wcont")
         if not ff.fired:
@@ -456,7 +485,11 @@ def build(case, ctx):  # noqa: F811 - wrap: prime the known-value substitution f
         if len(data) <= MAX_STREAM:
             break
         ctx.event("oversized_streams_replaced")
-    clean = [observe.normalise(observe.obs(r)) for r in RecordStreamReader(io.BytesIO(data))]
+    try:
+        clean = [observe.normalise(observe.obs(r)) for r in RecordStreamReader(io.BytesIO(data))]
+    except Exception:  # noqa: BLE001 - the undamaged stream does not read: reported by the cut at len(data) / the fault runs
+        clean = []
+        ctx.event("clean_read_of_the_undamaged_stream_raised")
     if len(clean) == len(written):
         _prime_expect(written, clean)
         ctx.event("records_differing_on_clean_read_(C01_known_value_classes)", sum(1 for w, c in zip(written, clean) if w != c))
